@@ -12,6 +12,7 @@ from .. import e2e
 from ..common import Hang, Rng, hx, unhx, watchdog
 from ..runner import Check
 from ..translate import c06_tables
+from . import c06_dedupe, c06_dirs
 
 # ------------------------------------------------------------------ pools (names that collide after normalisation)
 NAMES = [
@@ -1417,6 +1418,12 @@ def search_embed_disagreements(ck: Check) -> None:
     campaign_e2e(ck, 250, " [search]")
     if ck.failures:
         return
+    c06_dedupe.search(ck)
+    if ck.failures:
+        return
+    c06_dirs.search(ck)
+    if ck.failures:
+        return
     campaign_multidoc(ck, 300, exhaustive=True)
     if ck.failures:
         return
@@ -1429,7 +1436,10 @@ def known_findings(ck: Check) -> None:
         probe = Check(ck.prop, ck.tier)
         probe.findings = []
         camp = probe.campaign("witness")
-        e2e_oracle(probe, camp, f["witness"])
+        if f["witness"].get("dirs"):
+            c06_dirs.dirs_oracle(probe, camp, f["witness"])
+        else:
+            e2e_oracle(probe, camp, f["witness"])
         if probe.failures:
             ck.known(f["id"], f["what"])
 
@@ -1449,6 +1459,10 @@ def run(ck: Check) -> None:
         "theorems hold for every class-name generator; `name_is_classform` speaks of that function, the concrete default form is only tested",
         "multi-document input: files of one flat directory, references `other.json#/pointer`, `other.json`, `#/pointer`; Model/ResolverMultidoc starts from the "
         "reserved/loaded state observed at the first call of _resolve_unparsed_json_pointer (the per-document prelude is not modelled for document sets)",
+        "Dcg/Model/ResolverDedupe restates the name/key logic of Parser.__delete_duplicate_models; the key (render(class_name=duplicate_class_name), imports) is a parameter "
+        "whose value the harness takes from the real objects; the root-model branch of the pass (a root-type model that only wraps a reference to a model of its own name) is outside the model",
+        "base-path contexts: directories below the resolver's _base_path as segment lists, POSIX paths without symlinks; a path that leaves _base_path is answered `outside`, "
+        "a current directory outside _base_path (or None) ends the modelled region; `#…` references and URLs are outside this part of the model",
     ]
     ck.notes["distinct_nontrivial_rules"] = {
         "sequences": "distinct (options, operation prefix up to the first unmodelled op) whose final registry holds >= 2 entries",
@@ -1459,6 +1473,10 @@ def run(ck: Check) -> None:
         "modpass": "distinct cases in which the pass renamed at least one class",
         "worklist": "distinct documents whose parse reserved at least one pointer",
         "multidoc": "distinct document sets (file stems in listing order, edges, kind) on which the oracle passed; for the model correspondence: those in which _resolve_unparsed_json_pointer made at least one lookup",
+        "collide": "distinct documents (keys in order, content per key, container, kind) on which the oracle passed",
+        "dedupe-pass": "distinct model sequences in which the real pass dropped at least one model",
+        "dirs": "distinct directory trees (files, edges, entry, kind) on which the oracle passed",
+        "basepath": "distinct operation sequences in which one reference string got different answers in different directories",
         "e2e": "distinct documents (keys in order, edges, container, kind) on which the oracle passed; failures matching a known finding are counted in known_finding_hits_in_campaigns",
     }
     campaign_sequences(ck, 400 if quick else 3000)
@@ -1466,7 +1484,11 @@ def run(ck: Check) -> None:
     campaign_modpass(ck, 300 if quick else 3000)
     campaign_worklist(ck, 120 if quick else 1200)
     campaign_e2e(ck, 100 if quick else 600)
+    c06_dedupe.campaign_collide(ck, 80 if quick else 800, 3 if quick else 4)
+    c06_dedupe.campaign_pass(ck, 300 if quick else 3000, 4 if quick else 5)
     campaign_multidoc(ck, 200 if quick else 1500, exhaustive=not quick)
+    c06_dirs.campaign_dirs(ck, 120 if quick else 1500)
+    c06_dirs.campaign_basepath(ck, 300 if quick else 3000)
     if not quick:
         campaign_e2e_exhaustive(ck, CORE_KEYS, 4, "")
     ck.search_hooks.append(search_embed_disagreements)
@@ -1476,6 +1498,38 @@ def run(ck: Check) -> None:
 def replay(ck: Check, path: str) -> int:
     data = json.loads(open(path).read())
     inp = data.get("input") or (data.get("first_disagreement") or {}).get("input") or {}
+    if inp.get("dedupe_pass"):
+        c06_dedupe.campaign_pass(ck, 0, 0, " [replay]", cases=[{k: v for k, v in inp.items() if k != "dedupe_pass"}])
+        for f in ck.failures:
+            print("REPLAY-FAILS:", json.dumps(f.classification), f.observed[:300])
+        for d in ck.disagreements:
+            print("REPLAY-DISAGREES:", d.campaign, "model=", str(d.model)[:300], "impl=", str(d.impl)[:300])
+        if not ck.failures and not ck.disagreements:
+            print("replay: model and implementation agree and the oracle does not fail on this input")
+        return 1 if ck.failures or ck.disagreements else 0
+    if inp.get("dirs"):
+        camp = ck.campaign("replay")
+        c06_dirs.dirs_oracle(ck, camp, inp)
+        for f in ck.failures:
+            print("REPLAY-FAILS:", json.dumps(f.classification), f.observed[:300])
+        if not ck.failures:
+            print("replay: the oracle does not fail on this input" + (" (matches a known finding)" if ck.known_hits else ""))
+        return 1 if ck.failures else 0
+    if "ctx_ops" in inp:
+        c06_dirs.campaign_basepath(ck, 0, " [replay]", cases=[inp["ctx_ops"]])
+        for d in ck.disagreements:
+            print("REPLAY-DISAGREES:", d.campaign, "model=", str(d.model)[:300], "impl=", str(d.impl)[:300])
+        if not ck.disagreements:
+            print("replay: model and implementation agree on this input")
+        return 1 if ck.disagreements else 0
+    if inp.get("collide"):
+        camp = ck.campaign("replay")
+        c06_dedupe.collide_oracle(ck, camp, inp)
+        for f in ck.failures:
+            print("REPLAY-FAILS:", json.dumps(f.classification), f.observed[:300])
+        if not ck.failures:
+            print("replay: the oracle does not fail on this input")
+        return 1 if ck.failures else 0
     if "stems" in inp:
         camp = ck.campaign("replay")
         multidoc_oracle(ck, camp, inp)
